@@ -635,6 +635,12 @@ func c07(w *core.World, r *core.Report) {
 	ruleSyncMetaPaths(w, r)
 	r.Rule("R07.8", "every flush stores the one running position (the end offset of the last item taken, pings included) or the received item's own offset", 2)
 	ruleFlushOffsetsFollowEveryItem(w, r, c)
+	r.Rule("R07.9", "the database a checkpoint is accounted to is the database of the last command queued in the same batch: the per-database set that lets an offset go without its run id is asked and told about nothing else (a database remembered from an earlier batch is 0 after a keep-alive; seed C07-13)", 1)
+	if c != nil {
+		ruleCheckpointDbFromBatch(w, r, c)
+	}
+	r.Rule("R06.13", "a full resynchronisation under a new id starts from the 'none yet' marker and from nothing else: the old id's records are removed from every database before the marker is written and a failed removal ends the drop, or the new history inherits an offset of the previous one - a stored position that is no command boundary of the history replayed, followed by smaller ones (shared with C06; seed C07-14)", 1)
+	ruleDropRemovesEveryRecord(w, r)
 }
 
 func isIfaceCall(v ssa.Value, suffix string) bool {
@@ -871,6 +877,10 @@ func c02(w *core.World, r *core.Report) {
 	}
 	r.Rule("R09.3", "inside a source transaction only EXEC requests a flush: a flush at any other command commits a resume position between MULTI and EXEC (shared with C09)", 6)
 	ruleTxnStateMachine(w, r)
+	r.Rule("R02.8", "transactional mode: no flush stores a resume position while a source transaction is open, other than the flush the state machine requests at EXEC: the position would cover the consumed MULTI, which the target has not received (all paths of one sender iteration; seed C02-13)", 2)
+	if c != nil {
+		ruleNoPositionInsideOpenTxn(w, r, c)
+	}
 }
 
 // batcher events of one path of sendFuncOnce
